@@ -442,6 +442,20 @@ def sym_set(iterable=()):
 _real_ip_address = ipaddress.ip_address
 
 
+_real_v6_str = ipaddress._BaseV6.__dict__['_string_from_ip_int']
+
+
+def _v6_string_from_ip_int(cls, ip_int=None):
+    """text of an IPv6 address whose integer is symbolic: a value token (the stdlib formats with '%x', a C boundary)"""
+    if isinstance(ip_int, SymInt):
+        from . import core
+        return '[v6:' + core.token_of(ip_int.t) + ']'
+    return _real_v6_str.__func__(cls, ip_int)
+
+
+ipaddress._BaseV6._string_from_ip_int = classmethod(_v6_string_from_ip_int)
+
+
 def _mk_addr(cls, ip):
     o = object.__new__(cls)
     o._ip = ip
@@ -753,3 +767,7 @@ def install(mods):
     for mod in mods.values():
         if hasattr(mod, 'compare_digest'):
             mod.compare_digest = sym_compare_digest
+        # whatever struct functions a module imported by name
+        for name, fn in (('pack', pack), ('unpack', unpack), ('unpack_from', unpack_from), ('pack_into', pack_into)):
+            if getattr(mod, name, None) is getattr(_struct, name):
+                setattr(mod, name, fn)
